@@ -592,7 +592,9 @@ def is_valid_python(source: str) -> bool:
     try:
         ast.parse(source)
         return True
-    except SyntaxError:
+    except (SyntaxError, ValueError, RecursionError):
+        # Text that cannot be encoded, such as a lone surrogate, is a ValueError, and the parser
+        # gives up on code that is nested too deeply with a RecursionError
         return False
 
 
